@@ -504,7 +504,12 @@ impl PacketReceiver for IceConn {
                 Some(IceSocketWrapper::TcpStream(_, _, _))
             )
         };
-        if current_remote.port() == 0 || (socket_is_inbound_tcp && current_remote != addr) {
+        // With RTP latching enabled an unset remote (port 0) is learned only through the
+        // latch below, i.e. from RTP that passes the expected-SSRC filter; RTCP or
+        // wrong-SSRC packets must not bootstrap the RTP destination.
+        let bootstrap_unset =
+            current_remote.port() == 0 && !self.latch_on_rtp.load(Ordering::Relaxed);
+        if bootstrap_unset || (socket_is_inbound_tcp && current_remote != addr) {
             *self.remote_addr.write() = addr;
         } else if addr != current_remote {
             // Note: We no longer automatically switch the remote address just by receiving
